@@ -117,6 +117,16 @@ func (o C13Op) String() string {
 	case "take":
 		return fmt.Sprintf("take(row%d of the other table)", o.R)
 	case "stamp":
+		switch o.From {
+		case "cell":
+			how := "*CellAt"
+			if o.S == 1 {
+				how = "Cells()[i] of"
+			}
+			return fmt.Sprintf("s:=%s cell%d.%d", how, o.SR, o.SC)
+		case "foreign":
+			return fmt.Sprintf("s:=value of cell %d of another table", o.SC)
+		}
 		return "s:=NewCell"
 	case "rowaddfrom":
 		switch o.From {
@@ -314,6 +324,18 @@ func (s *c13Sim) wf(o C13Op) bool {
 		return s.ownerExists(o)
 	case "hcol":
 		return o.N >= 0 && o.N <= s.ncols
+	case "stamp":
+		// a local Cell variable: fresh from NewCell, or the VALUE of a cell that
+		// exists (of this table's rows, or of another table) copied out
+		switch o.From {
+		case "":
+			return true
+		case "cell":
+			return !s.replacedHeader(o.SR) && s.ownerExists(C13Op{Owner: "cell", R: o.SR, N: o.SC}) && (o.S == 0 || o.S == 1)
+		case "foreign":
+			return o.SC >= 1 && o.SC <= 3
+		}
+		return false
 	case "rowaddfrom":
 		if o.R < 0 || o.R >= len(s.rows) || s.replacedHeader(o.R) {
 			return false
@@ -442,7 +464,10 @@ func (s *c13Sim) step(o C13Op) {
 			s.coq = append(s.coq, C13Op{K: "rowadd", R: id}.Coq())
 		}
 	case "stamp":
-		s.stamps = append(s.stamps, nil)
+		// the value starts with the callbacks the cell it was copied from
+		// carried at that moment (a fresh cell, a foreign one: none); from then
+		// on it is an object of its own
+		s.stamps = append(s.stamps, append([]C13Op(nil), s.ownRegs(o)...))
 	case "rowaddfrom":
 		// what it means for a Cell to be a value: the copy is a new cell of the
 		// row that starts with the callbacks the value carried
@@ -1125,7 +1150,15 @@ func (x *c13Runner) doOp(opi int, o C13Op) {
 		}
 		env.shared[id] = true
 	case "stamp":
-		c := tabular.NewCell("s")
+		var c tabular.Cell
+		switch o.From {
+		case "":
+			c = tabular.NewCell("s")
+		case "cell":
+			c = env.cellValue(o.SR, o.SC, o.S == 1)
+		default:
+			c = *env.foreignCell(o.SC)
+		}
 		env.stamps = append(env.stamps, &c)
 	case "rowaddfrom":
 		dest := env.rowPtr(o.R)
@@ -1143,16 +1176,7 @@ func (x *c13Runner) doOp(opi int, o C13Op) {
 			}
 			v = *p
 		default:
-			if env.other == nil {
-				env.other = tabular.New()
-				env.other.AddRowItems("f", "f", "f")
-				env.other.InvokeRenderCallbacks()
-			}
-			p, err := env.other.CellAt(tabular.CellLocation{Row: 1, Column: o.SC})
-			if err != nil {
-				panic("harness: foreign cell")
-			}
-			v = *p
+			v = *env.foreignCell(o.SC)
 		}
 		if dest.Cells() != nil {
 			inh := map[int]bool{}
@@ -1652,7 +1676,14 @@ func c13Snippet(sp C13Spec) string {
 			fmt.Fprintf(&sb, "h%d := t.Column(%d); ", hcount, o.N)
 			hcount++
 		case "stamp":
-			fmt.Fprintf(&sb, "s%d := tabular.NewCell(\"s\"); ", scount)
+			switch o.From {
+			case "cell":
+				fmt.Fprintf(&sb, "s%d := r%d.Cells()[%d] /*a copy of the value*/; ", scount, o.SR, o.SC-1)
+			case "foreign":
+				fmt.Fprintf(&sb, "s%d := otherTable.AllRows()[0].Cells()[%d] /*a copy of the value*/; ", scount, o.SC-1)
+			default:
+				fmt.Fprintf(&sb, "s%d := tabular.NewCell(\"s\"); ", scount)
+			}
 			scount++
 		case "rowaddfrom":
 			switch o.From {
@@ -2194,10 +2225,19 @@ func c13RandHistory(r *RNG, maxOps, maxRegs int) C13Spec {
 	n := 1 + r.Intn(maxOps)
 	for i := 0; i < n; i++ {
 		var o C13Op
-		switch k := r.Intn(15); {
+		kinds := 15
+		if c13RandCopies {
+			kinds = 17 // 15, 16: more cell values and additions of them
+		}
+		switch k := r.Intn(kinds); {
+		case k == 15:
+			o = c13RandStamp(r, s)
 		case k == 13:
 			o = opK("stamp")
-		case k == 14:
+			if c13RandCopies {
+				o = c13RandStamp(r, s)
+			}
+		case k == 14 || k == 16:
 			if len(s.rows) == 0 {
 				continue
 			}
@@ -2415,6 +2455,7 @@ func c13Gen(r *RNG, tier string) []json.RawMessage {
 	c13GenHandles(r, tier, add)
 	c13GenFailing(r, tier, add)
 	c13GenValues(r, tier, add)
+	c13GenValueCopies(r, tier, add)
 	c13GenPanics(r, tier, func(sp C13Spec) { out = append(out, mustJSON(sp)) })
 	c13GenThrough(r, tier, add)
 	c13GenNested(r, tier, func(sp C13Spec) { out = append(out, mustJSON(sp)) })
@@ -2455,6 +2496,13 @@ func c13Gen(r *RNG, tier string) []json.RawMessage {
 	for i := 0; i < n; i++ {
 		out = append(out, mustJSON(c13RandHistory(r, 12, 4)))
 	}
+	// ... and as many again (a third in quick) in which local Cell variables
+	// are also made from the values of existing cells (c13_r6.go)
+	c13RandCopies = true
+	for i := 0; i < n/3+n/3*2*b2i(tier == "thorough"); i++ {
+		out = append(out, mustJSON(c13RandHistory(r, 12, 4)))
+	}
+	c13RandCopies = false
 	// the long tables are spread evenly over the run (the evaluation is sharded in order)
 	merged := make([]json.RawMessage, 0, len(out)+len(long))
 	li := 0
@@ -3021,7 +3069,7 @@ func c13DropOp(ops []C13Op, i int) []C13Op {
 			}
 		}
 		if id >= 0 {
-			if o.K == "rowaddfrom" && o.From == "cell" {
+			if (o.K == "rowaddfrom" || o.K == "stamp") && o.From == "cell" {
 				if o.SR == id {
 					continue
 				}
@@ -3177,6 +3225,7 @@ func init() {
 			"column handles taken while the table is narrow, the table widened to 10+ columns in four ways (wide row, wide header, cells added late to an attached row, wide detached row), column callbacks registered through the old handle before and after the growth and through a fresh handle, identities and properties compared through old handles too; " +
 			"callbacks that return an error: every firing single registration, and every failing pre-cell cell-targeted registration paired, in both orders, with every registration that fires for the same cell / its row / its column / the table; " +
 			"cell values with a history: a local Cell variable with 0-2 callbacks registered upon it added twice (one row, two rows, detached row) with further registrations on each stored copy in both orders; the value of a table cell (body, header) or of another table's cell added at another column position, into attached and detached rows, with column cell callbacks of every time on both columns (a stored copy is a new cell of its row that starts with the callbacks the value carried: shipped to the model as Row.Add plus those registrations); " +
+			"local Cell variables that are COPIES of existing cells (c := *cellAt / row.Cells()[i] / Headers()[i], of a body cell, a header cell, a detached row's cell, another table's cell; the source with and without a callback of its own): a cell-level registration of every time and both target aliases upon &c, then c never added / added to another attached row / late into a full row / to a detached row attached later / twice / back into the source's own row, with a later registration upon the source and one upon the stored cell, and with column and row cell callbacks around it - the copy's callbacks belong to the copy (Model/CellValues.v, c13_value_ops_local, c13_value_add); seeded random histories with such variables; " +
 			"a callback that panics in one render pass (the harness recovers): that pass is void, every other pass before and after it must be complete - every firing render-time combination x shape; " +
 			"render passes asked for through every entry point of every renderer (package-level Render / RenderTo and the methods of a reused wrapper for csv, json, markdown, texttable; html's wrapper methods; auto.Render / RenderTo / Wrap with 7 styles: 42 paths besides t.InvokeRenderCallbacks()), in turn over all families, and on tables of 47 / 48 / 49 / 100 rows (separators count): exactly one pass per call; " +
 			"a table in a cell: a render-time callback of the table (every firing combination, first / middle / last owner instance, three kinds of callback object) runs a complete pass over another table with recording callbacks of its own (1 / 3 / 6 rows against 3-4, asked for directly and through a renderer) from inside the pass - both tables' logs are judged, each against its own history; " +
